@@ -95,6 +95,9 @@ class Substrate(object):
                                         else simfs.LAT_DISK)
             for d in ('/q/env', '/q/meta', '/q/tmp'):
                 self.fs.mkdir(d)
+            if scn.get('short_writes'):
+                self.fs.short_mod = int(scn['short_writes'])
+                world.probe('short-writes')
             simfs.install(self.fs)
             import slimta.diskstorage as ds
             ds.AioFile.chunk_size = scn.get('chunk_size') or (16 << 10)
@@ -521,6 +524,13 @@ def pipe_relay(world, scn, obs):
             lat = spec.get('lat', 0.0)
             if lat:
                 gevent.sleep(lat)
+            if verdict == 'temp' and var == 1 and rec is not None and \
+                    rec['n'] % 2 == 0:
+                # this delivery program never finishes: the relay's timeout
+                # ends the attempt for this recipient and those not tried yet
+                world.fault('subprocess-hang')
+                rec['hung'] = True
+                gevent.sleep(10 ** 7)
             if rec is not None:
                 rec['truth'][rcpt] = verdict
             if verdict == 'ok':
@@ -582,6 +592,14 @@ def pipe_relay(world, scn, obs):
             try:
                 return pmod.PipeRelay.attempt(self, envelope, attempts)
             finally:
+                if self.per_recipient:
+                    # whoever had not been settled when the relay's timeout
+                    # fired (a hanging process, or several slow ones)
+                    for r in rec['rcpts']:
+                        if r not in rec['truth']:
+                            rec['truth'][r] = 'temp'
+                            rec['replies'][r] = ('450',
+                                                 '4.4.2 Delivery timed out')
                 if not self.per_recipient:
                     # one process decides for the whole message
                     v0 = rec['truth'].get(rec['rcpts'][0], 'ok')
@@ -596,7 +614,8 @@ def pipe_relay(world, scn, obs):
                 rec['end_seq'] = w.counter('attseq')
                 w.log('ATT', str(mk), n, 'end')
 
-    return ObsPipe(['deliver', '-f', '{sender}', '-d', '{recipient}'])
+    return ObsPipe(['deliver', '-f', '{sender}', '-d', '{recipient}'],
+                   timeout=7.0)
 
 
 def smtp_relay(world, scn, obs):
